@@ -24,6 +24,7 @@ type Mutex struct {
 
 type mutexObj struct{ m *Mutex }
 
+//go:norace
 func (o mutexObj) KeyHash() uint64 {
 	if o.m.locked {
 		return vrt.Mix(o.m.r.id, 1)
@@ -31,23 +32,33 @@ func (o mutexObj) KeyHash() uint64 {
 	return vrt.Mix(o.m.r.id, 0)
 }
 
+//go:norace
 func (m *Mutex) init() {
 	if m.r.id == 0 {
 		m.r.id = vrt.RegisterObj(mutexObj{m})
 	}
 }
 
+//go:norace
 func (m *Mutex) Ready(t *vrt.Thread) bool { return !m.locked }
-func (m *Mutex) Acquire(t *vrt.Thread)    { m.locked = true }
-func (m *Mutex) KeyID() uint64            { return m.r.id }
-func (m *Mutex) VrtKey() uint64           { return m.r.id }
 
+//go:norace
+func (m *Mutex) Acquire(t *vrt.Thread) { m.locked = true }
+
+//go:norace
+func (m *Mutex) KeyID() uint64 { return m.r.id }
+
+//go:norace
+func (m *Mutex) VrtKey() uint64 { return m.r.id }
+
+//go:norace
 func (m *Mutex) Lock() {
 	m.init()
 	vrt.Block(m)
 	vrt.RaceAcq(&m.hb)
 }
 
+//go:norace
 func (m *Mutex) TryLock() bool {
 	m.init()
 	vrt.Yield()
@@ -59,6 +70,7 @@ func (m *Mutex) TryLock() bool {
 	return true
 }
 
+//go:norace
 func (m *Mutex) Unlock() {
 	m.init()
 	if !m.locked {
@@ -79,6 +91,7 @@ type RWMutex struct {
 
 type rwObj struct{ m *RWMutex }
 
+//go:norace
 func (o rwObj) KeyHash() uint64 {
 	w := uint64(0)
 	if o.m.writer {
@@ -87,6 +100,7 @@ func (o rwObj) KeyHash() uint64 {
 	return vrt.Mix(o.m.r.id, w, uint64(o.m.readers))
 }
 
+//go:norace
 func (m *RWMutex) init() {
 	if m.r.id == 0 {
 		m.r.id = vrt.RegisterObj(rwObj{m})
@@ -96,15 +110,31 @@ func (m *RWMutex) init() {
 type rwW struct{ m *RWMutex }
 type rwR struct{ m *RWMutex }
 
+//go:norace
 func (b rwW) Ready(t *vrt.Thread) bool { return !b.m.writer && b.m.readers == 0 }
-func (b rwW) Acquire(t *vrt.Thread)    { b.m.writer = true }
-func (b rwW) KeyID() uint64            { return vrt.Mix(b.m.r.id, 1) }
-func (b rwR) Ready(t *vrt.Thread) bool { return !b.m.writer }
-func (b rwR) Acquire(t *vrt.Thread)    { b.m.readers++ }
-func (b rwR) KeyID() uint64            { return vrt.Mix(b.m.r.id, 2) }
 
+//go:norace
+func (b rwW) Acquire(t *vrt.Thread) { b.m.writer = true }
+
+//go:norace
+func (b rwW) KeyID() uint64 { return vrt.Mix(b.m.r.id, 1) }
+
+//go:norace
+func (b rwR) Ready(t *vrt.Thread) bool { return !b.m.writer }
+
+//go:norace
+func (b rwR) Acquire(t *vrt.Thread) { b.m.readers++ }
+
+//go:norace
+func (b rwR) KeyID() uint64 { return vrt.Mix(b.m.r.id, 2) }
+
+//go:norace
 func (m *RWMutex) VrtKey() uint64 { return m.r.id }
-func (m *RWMutex) Lock()          { m.init(); vrt.Block(rwW{m}); vrt.RaceAcq(&m.hb) }
+
+//go:norace
+func (m *RWMutex) Lock() { m.init(); vrt.Block(rwW{m}); vrt.RaceAcq(&m.hb) }
+
+//go:norace
 func (m *RWMutex) Unlock() {
 	if !m.writer {
 		panic("sync: Unlock of unlocked RWMutex")
@@ -112,7 +142,11 @@ func (m *RWMutex) Unlock() {
 	vrt.RaceRel(&m.hb)
 	m.writer = false
 }
+
+//go:norace
 func (m *RWMutex) RLock() { m.init(); vrt.Block(rwR{m}); vrt.RaceAcq(&m.hb) }
+
+//go:norace
 func (m *RWMutex) RUnlock() {
 	if m.readers == 0 {
 		panic("sync: RUnlock of unlocked RWMutex")
@@ -120,11 +154,16 @@ func (m *RWMutex) RUnlock() {
 	vrt.RaceRel(&m.hb)
 	m.readers--
 }
+
+//go:norace
 func (m *RWMutex) RLocker() Locker { return rlocker{m} }
 
 type rlocker struct{ m *RWMutex }
 
-func (r rlocker) Lock()   { r.m.RLock() }
+//go:norace
+func (r rlocker) Lock() { r.m.RLock() }
+
+//go:norace
 func (r rlocker) Unlock() { r.m.RUnlock() }
 
 // ---- WaitGroup ----
@@ -137,19 +176,29 @@ type WaitGroup struct {
 
 type wgObj struct{ g *WaitGroup }
 
+//go:norace
 func (o wgObj) KeyHash() uint64 { return vrt.Mix(o.g.r.id, uint64(o.g.n)) }
 
+//go:norace
 func (g *WaitGroup) init() {
 	if g.r.id == 0 {
 		g.r.id = vrt.RegisterObj(wgObj{g})
 	}
 }
 
+//go:norace
 func (g *WaitGroup) Ready(t *vrt.Thread) bool { return g.n == 0 }
-func (g *WaitGroup) Acquire(t *vrt.Thread)    {}
-func (g *WaitGroup) KeyID() uint64            { return g.r.id }
-func (g *WaitGroup) VrtKey() uint64           { return g.r.id }
 
+//go:norace
+func (g *WaitGroup) Acquire(t *vrt.Thread) {}
+
+//go:norace
+func (g *WaitGroup) KeyID() uint64 { return g.r.id }
+
+//go:norace
+func (g *WaitGroup) VrtKey() uint64 { return g.r.id }
+
+//go:norace
 func (g *WaitGroup) Add(delta int) {
 	g.init()
 	if delta < 0 {
@@ -161,8 +210,10 @@ func (g *WaitGroup) Add(delta int) {
 	}
 }
 
+//go:norace
 func (g *WaitGroup) Done() { g.Add(-1) }
 
+//go:norace
 func (g *WaitGroup) Wait() {
 	g.init()
 	vrt.Block(g)
@@ -180,6 +231,7 @@ type Once struct {
 
 type onceObj struct{ o *Once }
 
+//go:norace
 func (o onceObj) KeyHash() uint64 {
 	if o.o.done {
 		return vrt.Mix(o.o.r.id, 1)
@@ -187,14 +239,17 @@ func (o onceObj) KeyHash() uint64 {
 	return vrt.Mix(o.o.r.id, 0)
 }
 
+//go:norace
 func (o *Once) init() {
 	if o.r.id == 0 {
 		o.r.id = vrt.RegisterObj(onceObj{o})
 	}
 }
 
+//go:norace
 func (o *Once) VrtKey() uint64 { return o.r.id }
 
+//go:norace
 func (o *Once) Do(f func()) {
 	o.init()
 	if o.done {
@@ -209,6 +264,7 @@ func (o *Once) Do(f func()) {
 	}
 }
 
+//go:norace
 func (o *Once) finish() {
 	vrt.RaceRel(&o.hb)
 	o.done = true
@@ -227,12 +283,18 @@ type condWait struct {
 	woken bool
 }
 
+//go:norace
 func (cw *condWait) Ready(t *vrt.Thread) bool { return cw.woken }
-func (cw *condWait) Acquire(t *vrt.Thread)    {}
-func (cw *condWait) KeyID() uint64            { return cw.c.r.id }
+
+//go:norace
+func (cw *condWait) Acquire(t *vrt.Thread) {}
+
+//go:norace
+func (cw *condWait) KeyID() uint64 { return cw.c.r.id }
 
 type condObj struct{ c *Cond }
 
+//go:norace
 func (o condObj) KeyHash() uint64 {
 	n := uint64(0)
 	for _, w := range o.c.waiters {
@@ -243,14 +305,17 @@ func (o condObj) KeyHash() uint64 {
 	return vrt.Mix(o.c.r.id, n)
 }
 
+//go:norace
 func NewCond(l Locker) *Cond { return &Cond{L: l} }
 
+//go:norace
 func (c *Cond) init() {
 	if c.r.id == 0 {
 		c.r.id = vrt.RegisterObj(condObj{c})
 	}
 }
 
+//go:norace
 func (c *Cond) Wait() {
 	c.init()
 	cw := &condWait{c: c}
@@ -260,6 +325,7 @@ func (c *Cond) Wait() {
 	c.L.Lock()
 }
 
+//go:norace
 func (c *Cond) Signal() {
 	c.init()
 	for i, w := range c.waiters {
@@ -271,6 +337,7 @@ func (c *Cond) Signal() {
 	}
 }
 
+//go:norace
 func (c *Cond) Broadcast() {
 	c.init()
 	for _, w := range c.waiters {
@@ -284,6 +351,7 @@ func (c *Cond) Broadcast() {
 type Map = sync.Map
 type Pool = sync.Pool
 
+//go:norace
 func OnceFunc(f func()) func() {
 	var o Once
 	return func() { o.Do(f) }
